@@ -1,6 +1,6 @@
 (* Proofs about the model of sampler.StatisticalContinuumSampler (Stat.v) - C15. *)
 From Coq Require Import List Arith ZArith QArith Qabs Qround Lia Lqa Bool.
-From PGAwip Require Import Stat.
+From PGA Require Import Sampler.Stat.
 Import ListNotations.
 Local Open Scope Q_scope.
 
